@@ -268,7 +268,7 @@ func (c *Ctx) Finish() int {
 	if len(samples) == 0 {
 		samples = append(samples, "no obligations")
 	}
-	expl := c.Explain
+	expl := c.Explain + " The authoritative list of the rules evaluated in this run (including those added after seeded changes were missed), each with its statement, instance count and floor, is coverage.rules."
 	if c.NotDecided != "" {
 		expl += " NOT DECIDED: " + c.NotDecided
 	}
